@@ -1,2 +1,114 @@
-(* Properties/C14.v — placeholder until Proofs/Context*.v land. *)
-From XV Require Import Base.Str Model.Context.
+(* Properties/C14.v — parsers, serializers and the binding context are
+   history-independent.  Statements only; proofs in Proofs/Context*.v.
+
+   Model: Model/Context.v.  `run_hist w0 ctx0 h` runs a history (client operations
+   as scripts over the context's public methods, interleaved with classes and
+   modules appearing in the interpreter) on instances that start fresh in world
+   w0; `result w x s` is what operation s returns on instances in state x;
+   `ctx0` is the state of freshly created instances. *)
+From Coq Require Import NArith List Bool.
+From XV Require Import Base.Str Base.Eqb Model.Context
+  Proofs.ContextEq Proofs.ContextInv Proofs.ContextHist Proofs.ContextLemmas Proofs.ContextWitness.
+Import ListNotations.
+Open Scope N_scope.
+
+(* The property at full strength:
+     forall w0 h s, world_ok w0 = true -> history_independent_at w0 h s
+   where history_independent_at w0 h s :=
+     let '(w, x, _) := run_hist w0 ctx0 h in result w x s = result w ctx0 s.
+   It is FALSE of the faithful model (and of the implementation): *)
+Theorem C14_history_independent_full_refuted :
+  ~ (forall w0 h s, world_ok w0 = true -> history_independent_at w0 h s).
+Proof. exact full_statement_false. Qed.
+Print Assumptions C14_history_independent_full_refuted.
+
+(* (a) the metadata cache is keyed by class only *)
+Theorem C14_history_independent_refuted_ns :
+  exists w0 h s, world_ok w0 = true /\ ~ history_independent_at w0 h s
+                 /\ modules_stable h = true.
+Proof. exists W, h_ns, (serialize W vPB). destruct refuted_ns. auto. Qed.
+Print Assumptions C14_history_independent_refuted_ns.
+
+(* (b) the subclass index is judged current by len(sys.modules) only *)
+Theorem C14_history_independent_refuted_stale :
+  exists w0 h s, world_ok w0 = true /\ ~ history_independent_at w0 h s
+                 /\ modules_stable h = false.
+Proof. exists W, h_stale, find_late. destruct refuted_stale. auto. Qed.
+Print Assumptions C14_history_independent_refuted_stale.
+
+(* (c) local_names_match prunes classes it cannot build from the index *)
+Theorem C14_history_independent_refuted_prune :
+  exists w0 h s, world_ok w0 = true /\ ~ history_independent_at w0 h s
+                 /\ modules_stable h = true.
+Proof. exists W, h_prune, find_broken. destruct refuted_prune. auto. Qed.
+Print Assumptions C14_history_independent_refuted_prune.
+
+(* (d) build_recursive stops at a cached class *)
+Theorem C14_history_independent_refuted_rec :
+  exists w0 h s, world_ok w0 = true /\ ~ history_independent_at w0 h s
+                 /\ modules_stable h = true.
+Proof. exists W, h_rec, rec_dep. destruct refuted_rec. auto. Qed.
+Print Assumptions C14_history_independent_refuted_rec.
+
+(* The guarded theorem.  hist_guard w0 h s (computable, Model/Context.v) =
+     world_ok w0                          len(sys.modules) > 0
+     && modules_stable h                  (b) every class appears together with a module-count change
+     && ns_closed t_shared && ns_closed t_fresh
+                                          (a) all requests for one class (parent namespaces actually
+                                              passed to XmlContext.build during the history, during s,
+                                              and during s on fresh instances) give the same metadata
+     && quiet t_shared && quiet t_fresh   (c) no class was pruned from the index,
+                                          (d) build_recursive met no unbuildable class below its argument.
+   For every history and every client s of the context: *)
+Theorem C14_history_independent_guarded :
+  forall w0 h s, hist_guard w0 h s = true ->
+  let '(w, x, _) := run_hist w0 ctx0 h in result w x s = result w ctx0 s.
+Proof. exact history_independent_guarded. Qed.
+Print Assumptions C14_history_independent_guarded.
+
+(* ... and both equal the stateless reference semantics: every method answers from
+   the classes that exist, never from what an earlier call left behind *)
+Theorem C14_shared_is_ideal :
+  forall w0 h s, world_ok w0 = true -> modules_stable h = true ->
+  let '(w, x, t) := run_hist w0 ctx0 h in
+  let '(_, r, ts) := run_script w x s in
+  ns_closed (t ++ ts) = true -> quiet (t ++ ts) = true -> r = ideal_run w s.
+Proof. exact shared_is_ideal. Qed.
+Print Assumptions C14_shared_is_ideal.
+
+(* the cache invariant behind it: every cached entry is the canonical metadata of its
+   class, whatever calls — failing ones included — have been made *)
+Theorem C14_failed_call_leaves_cache_consistent :
+  forall w canon x c x' k t,
+  0 < w_modules w -> Inv w canon x -> exec_call w x c = (x', AErr k, t) ->
+  canon_ok canon t -> quiet t = true -> Inv w canon x'.
+Proof. exact failed_call_leaves_cache_consistent. Qed.
+Print Assumptions C14_failed_call_leaves_cache_consistent.
+
+Theorem C14_failed_build_stores_nothing :
+  forall w x c pns x' t, ctx_build w x c pns = (x', None, t) -> x' = x.
+Proof. exact failed_build_stores_nothing. Qed.
+Print Assumptions C14_failed_build_stores_nothing.
+
+(* XmlVar.match_namespace: the per-field memo never changes an answer *)
+Theorem C14_memo_is_pure :
+  forall nss qs, snd (memo_run nss [] qs) = map (match_namespace_pure nss) qs.
+Proof. intros nss qs. apply memo_run_pure. apply memo_ok_nil. Qed.
+Print Assumptions C14_memo_is_pure.
+
+(* the ns_map recorder of a shared parser instance is write-only *)
+Theorem C14_recorder_not_read :
+  forall w x r s, result w (set_rec x r) s = result w x s
+                  /\ snd (run_script w (set_rec x r) s) = snd (run_script w x s).
+Proof. exact recorder_not_read. Qed.
+Print Assumptions C14_recorder_not_read.
+
+(* the guard is not vacuous *)
+Theorem C14_guard_nonvacuous : hist_guard W h_good (parse W docOwn None) = true.
+Proof. exact guard_nonvacuous. Qed.
+Print Assumptions C14_guard_nonvacuous.
+
+Theorem C14_guard_single_parent_namespace :
+  hist_guard W [HRun (serialize W vPA); HRun (serialize W vPA)] (serialize W vPA) = true.
+Proof. exact guard_single_parent. Qed.
+Print Assumptions C14_guard_single_parent_namespace.
